@@ -81,4 +81,11 @@ func init() {
 		Real:        realAll,
 		Stub:        stubAll,
 	}
+	engineTable["C32"] = engineInfo{
+		Engine:      "C32",
+		Rule:        "slice of the property: errors rethrown across promises. case = generated call chain of 2-6 functions, each plain or async (at least one promise is crossed), every link one of: plain call, await, await inside a larger expression, promise started then awaited after busy work / a sleep / another awaited task (so the awaited promise is sometimes already rejected, sometimes still pending when the await executes, and sometimes awaited synchronously from a plain function), 0-2 background tasks competing for the workers; the innermost function throws; x pool size 1-4 x one schedule. Oracle: the uncaught error reaches the top level with a stack trace that lists exactly the generated chain, outermost first, each frame with the function name and the line of its call / await / throw, on every path (AWAIT fast path, continuation resume, AWAIT_SYNC). Non-trivial: >= 2 tasks; distinct: hash of (source, pool, schedule trace)",
+		Assumptions: append([]string{"the sequential clauses of the property (plain call chains, generators, line tables) are not claimed: they do not depend on a schedule"}, commonAssumptions...),
+		Real:        append([]string{"vm.Thread.BuildStackTrace / BuildStackTracePrepend", "AWAIT / AWAIT_RESULT / AWAIT_SYNC error paths", "vm.Promise rejection with stack trace", "vm.ThreadPool"}, realAll...),
+		Stub:        stubAll,
+	}
 }
